@@ -54,5 +54,6 @@ pub mod verif_exports {
     pub use super::numeric::{
         check_number_bounds, rx_float_range, rx_int_range, verif_lexi, Decimal,
     };
+    pub use super::schema::verif_intersect;
     pub use super::schema::NumberSchema;
 }
